@@ -96,6 +96,14 @@ impl Property for C01 {
         textspace::families(ctx, false)
     }
     fn run_case(&self, _ctx: &Ctx, case: &Case) -> Verdict {
+        if let Some(text) = textspace::flat_text(case) {
+            let r = textspace::on_small_stack(move || std::panic::catch_unwind(|| check_lossless(&text)).map_err(|_| take_panic()));
+            return match r {
+                Ok(Ok(_)) => Verdict::pass(true),
+                Ok(Err(f)) => Verdict::Fail(f),
+                Err(desc) => Verdict::Fail(Failure::new("panic", panic_sig(&desc), desc)),
+            };
+        }
         let Some(text) = textspace::case_text(case) else { return Verdict::Skip("malformed-case") };
         match check_lossless(text) {
             Ok((ntok, interesting)) => Verdict::pass(ntok >= 3 && interesting),
